@@ -17,7 +17,8 @@ Inductive top :=
 | TRun (n : name)                       (* RunJob *)
 | TCancel (n : name)                    (* CancelJob *)
 | TExists (n : name)                    (* JobExists *)
-| TList.                                (* ListJobs *)
+| TList                                 (* ListJobs *)
+| TCancelAll.                           (* CancelJobs with a prefix that every name has *)
 
 Inductive tout :=
 | TCode (c : code)
@@ -71,6 +72,10 @@ Definition tb_step (s : tabst) (o : top) : tabst * tout :=
       end
   | TExists n => (s, TBool (t_exists (tb_table s) n))
   | TList => (s, TNames (sort_by (fun x => x) (t_list (tb_table s))))
+  | TCancelAll =>
+      (* CancelJobs collects the matching names, then CancelJobIfExists on each: every entry goes *)
+      ({| tb_table := fold_left (fun t n => fst (t_cancel t n)) (t_list (tb_table s)) (tb_table s);
+          tb_per := tb_per s; tb_next := tb_next s; tb_runs := tb_runs s |}, TCode Nil)
   end.
 
 Fixpoint tb_run (s : tabst) (ops : list top) : tabst * list tout :=
